@@ -17,9 +17,9 @@ _fresh = itertools.count()
 
 def fresh(prefix, sort=None):
     nm = '%s!%d' % (prefix, next(_fresh))
-    if sort is None or sort == 'Int':
+    if sort is None or (isinstance(sort, str) and sort == 'Int'):
         return z3.Int(nm)
-    if sort == 'Bool':
+    if isinstance(sort, str) and sort == 'Bool':
         return z3.Bool(nm)
     return z3.Const(nm, sort)
 
@@ -774,6 +774,12 @@ class PureEval(object):
 
     def fn_old(self, n):
         key = 'old(%s)' % ast.unparse(n.args[0])
+        if key in self.ns:
+            return self.ns[key]
+        raise Unsupported('%s is not available here' % key)
+
+    def fn_entry(self, n):
+        key = 'entry(%s)' % ast.unparse(n.args[0])
         if key in self.ns:
             return self.ns[key]
         raise Unsupported('%s is not available here' % key)
